@@ -5,6 +5,7 @@ from __future__ import annotations
 
 from ..classes import ClassInfo
 from ..interp import Frame, Interp, solver_facts
+from ..loader import AnalysisError
 from ..terms import K, S, T_add, T_ite, T_cmp, T_mul, T_sub, T_truediv, alpha_norm, show_norm
 
 EPS = S("EPS")
@@ -61,7 +62,14 @@ def maxdiff_of(I: Interp, new, old):
 
 
 def same(a, b) -> bool:
-    return alpha_norm(a) == alpha_norm(b)
+    if alpha_norm(a) == alpha_norm(b):
+        return True
+    from ..terms import subterms
+    unk = sorted({t[1][1:] for x in (a, b) for t in subterms(x) if t[0] == "app" and isinstance(t[1], str) and t[1].startswith("?")})
+    if unk:
+        raise AnalysisError(f"a term identity cannot be decided: the code calls {unk}, for which the analyser has no model "
+                            "(neither equality nor difference with the documented form can be shown)")
+    return False
 
 
 def brief(t, n=200) -> str:
